@@ -285,6 +285,14 @@ func execOp(c *Ctx, line string) (out string) {
 			return "err formatter"
 		}
 		return hx(b)
+	case "sem.paths":
+		v := sem.Ver{Major: atou(f[1]), Minor: atou(f[2]), Patch: atou(f[3]), PreRelease: string(mustHex(f[4])), Build: string(mustHex(f[5]))}
+		mt, err := v.MarshalText()
+		if err != nil {
+			return "err marshal"
+		}
+		return strings.Join([]string{hx(mt), hx([]byte(v.String())), hx([]byte(v.StringTag())), hx([]byte(fmt.Sprintf("%s", v))),
+			hx([]byte(fmt.Sprintf("%t", v))), hx([]byte(fmt.Sprintf("%v", v)))}, " ")
 	case "sem.valid":
 		v := sem.Ver{PreRelease: string(mustHex(f[1])), Build: string(mustHex(f[2]))}
 		if err := v.Valid(); err != nil {
@@ -392,6 +400,10 @@ func execOp(c *Ctx, line string) (out string) {
 	case "size.shorten":
 		v, u := size.Size(atou(f[1])).Shorten()
 		return fmt.Sprintf("%d %s", v, hx([]byte(u)))
+	case "size.paths":
+		z := size.Size(atou(f[1]))
+		return strings.Join([]string{hx([]byte(z.String())), hx([]byte(z.PrettyString())), hx([]byte(z.PrettyHTML())), hx([]byte(z.BytesString())),
+			hx([]byte(z.BytesJSONNumber()))}, " ")
 	case "size.format":
 		b, err := size.DefaultFormatter(mustHex(f[3]), size.Size(atou(f[1])), size.Format(atoi(f[2])))
 		if err != nil {
@@ -490,6 +502,14 @@ func execOp(c *Ctx, line string) (out string) {
 			}
 		}
 		return o1
+	case "uu.paths":
+		id := uu.ID{Higher: atou(f[1]), Lower: atou(f[2])}
+		mt, err := id.MarshalText()
+		if err != nil {
+			return "err marshal"
+		}
+		return strings.Join([]string{hx(mt), hx([]byte(id.String())), hx([]byte(id.URN())), hx([]byte(fmt.Sprintf("%s", id))),
+			hx([]byte(fmt.Sprintf("%u", id))), hx([]byte(fmt.Sprintf("%v", id)))}, " ")
 	case "uu.fields":
 		id := uu.ID{Higher: atou(f[1]), Lower: atou(f[2])}
 		return fmt.Sprintf("%d %d %s", id.Version(), id.Variant(), hx([]byte(id.URN())))
